@@ -18,22 +18,22 @@ def marksR (racc : List Loc) : Mk := marksList racc.reverse
 /-- what a push function must satisfy (induction hypothesis for the lower nesting level) -/
 structure PushMk (low : List Loc → Loc → Bool → List Loc) (lowAbs : List Loc → Loc → Bool → Bool) :
     Prop where
-  keeps : ∀ racc x f, wfList racc = true → wf x = true → lowAbs racc x f = false →
+  keeps : ∀ racc x f, rwfList racc = true → rwf x = true → lowAbs racc x f = false →
       marksR (low racc x f) = mcomb (marksR racc) (marks x)
-  wf : ∀ racc x f, wfList racc = true → wf x = true → wfList (low racc x f) = true
+  rwf : ∀ racc x f, rwfList racc = true → rwf x = true → rwfList (low racc x f) = true
 
 theorem fold_mk {low lowAbs} (h : PushMk low lowAbs) (f : Bool) :
-    ∀ (ys racc : List Loc), wfList racc = true → wfList ys = true →
+    ∀ (ys racc : List Loc), rwfList racc = true → rwfList ys = true →
       (foldAbs low lowAbs f racc ys = false →
         marksR (ys.foldl (fun acc y => low acc y f) racc) = mcomb (marksR racc) (marksList ys)) ∧
-      wfList (ys.foldl (fun acc y => low acc y f) racc) = true := by
+      rwfList (ys.foldl (fun acc y => low acc y f) racc) = true := by
   intro ys
   induction ys with
   | nil => intro racc hr _; simp [hr]
   | cons y ys ih =>
     intro racc hr hys
-    simp only [wfList_cons, Bool.and_eq_true] at hys
-    have hw := h.wf racc y f hr hys.1
+    simp only [rwfList_cons, Bool.and_eq_true] at hys
+    have hw := h.rwf racc y f hr hys.1
     have := ih (low racc y f) hw hys.2
     refine ⟨?_, this.2⟩
     intro ha
@@ -48,15 +48,15 @@ theorem inner_marks (j : List Loc) : marks (ofParts j) = marksList j := by
   | _ :: _ :: _ => simp [ofParts]
 
 theorem compl_case_mk {low lowAbs} (h : PushMk low lowAbs) (rest : List Loc) (vl ul : Loc) (f : Bool)
-    (hrest : wfList rest = true) (hv : wf vl = true) (hx : wf ul = true) :
+    (hrest : rwfList rest = true) (hv : rwf vl = true) (hx : rwf ul = true) :
     (markAbsOne low lowAbs (compl vl :: rest) (compl ul) f = false →
       marksR (pushOne low (compl vl :: rest) (compl ul) f) =
         mcomb (marksR (compl vl :: rest)) (marks (compl ul))) ∧
-    wfList (pushOne low (compl vl :: rest) (compl ul) f) = true := by
-  have hw1 : wfList (low [ul] vl f) = true := h.wf [ul] vl f (by simp [hx]) hv
-  have hw1r : wfList (low [ul] vl f).reverse = true := by rw [wfList_reverse]; exact hw1
+    rwfList (pushOne low (compl vl :: rest) (compl ul) f) = true := by
+  have hw1 : rwfList (low [ul] vl f) = true := h.rwf [ul] vl f (by simp [hx]) hv
+  have hw1r : rwfList (low [ul] vl f).reverse = true := by rw [rwfList_reverse]; exact hw1
   have hf := fold_mk h true (low [ul] vl f).reverse [] (by simp) hw1r
-  simp only [pushOne, markAbsOne, marksR_cons, wfList_cons, marks_compl, Bool.or_eq_false_iff]
+  simp only [pushOne, markAbsOne, marksR_cons, rwfList_cons, marks_compl, Bool.or_eq_false_iff]
   refine ⟨?_, ?_⟩
   · rintro ⟨ha1, ha2⟩
     rw [inner_marks]
@@ -70,44 +70,44 @@ theorem compl_case_mk {low lowAbs} (h : PushMk low lowAbs) (rest : List Loc) (vl
         = mcomb (marks ul) (marks vl) := h2
     rw [h4, mswap_mcomb, mcomb_assoc]
   · rw [hrest, Bool.and_true]
-    show wf (ofParts _) = true
-    apply inner_wf
-    rw [wfList_reverse]
+    show rwf (ofParts _) = true
+    apply inner_rwf
+    rw [rwfList_reverse]
     exact hf.2
 
 theorem pushOne_mk {low lowAbs} (h : PushMk low lowAbs) (racc : List Loc) (x : Loc) (f : Bool)
-    (hr : wfList racc = true) (hx : wf x = true) :
+    (hr : rwfList racc = true) (hx : rwf x = true) :
     (markAbsOne low lowAbs racc x f = false →
       marksR (pushOne low racc x f) = mcomb (marksR racc) (marks x)) ∧
-    wfList (pushOne low racc x f) = true := by
+    rwfList (pushOne low racc x f) = true := by
   cases racc with
   | nil => simp [pushOne, hx]
   | cons v rest =>
-    simp only [wfList_cons, Bool.and_eq_true] at hr
+    simp only [rwfList_cons, Bool.and_eq_true] at hr
     obtain ⟨hv, hrest⟩ := hr
     by_cases hcc : (∃ vl ul, v = compl vl ∧ x = compl ul)
     · obtain ⟨vl, ul, rfl, rfl⟩ := hcc
-      exact compl_case_mk h rest vl ul f hrest (by simpa [wf] using hv) (by simpa [wf] using hx)
+      exact compl_case_mk h rest vl ul f hrest (by simpa [rwf] using hv) (by simpa [rwf] using hx)
     · cases v <;> cases x <;>
         (first | (exfalso; exact hcc ⟨_, _, rfl, rfl⟩) | skip) <;>
         simp only [pushOne, markAbsOne] <;>
         (try split) <;>
-        (try simp only [marksR_cons, wfList_cons, marks_between, marks_point,
+        (try simp only [marksR_cons, rwfList_cons, marks_between, marks_point,
           marks_ranged, marks_ambiguous, marks_joined, marks_ordered, marks_compl, hx, hv, hrest,
           Bool.and_self, and_true, implies_true, mcomb_none_right]) <;>
-        (generalize marksR rest = m; cases m <;> simp_all [wf, mcomb])
+        (generalize marksR rest = m; cases m <;> simp_all [rwf, mcomb])
       · omega
       · refine ⟨?_, by omega⟩
         rw [if_pos (by omega)]
 
 mutual
 theorem pushW_mk {low lowAbs} (h : PushMk low lowAbs) :
-    ∀ (x : Loc) (racc : List Loc) (f : Bool), wfList racc = true → wf x = true →
+    ∀ (x : Loc) (racc : List Loc) (f : Bool), rwfList racc = true → rwf x = true →
       (markAbsW low lowAbs racc x f = false →
         marksR (pushW low racc x f) = mcomb (marksR racc) (marks x)) ∧
-      wfList (pushW low racc x f) = true
+      rwfList (pushW low racc x f) = true
   | joined parts, racc, f, hr, hx => by
-      have := pushListW_mk h parts racc f hr (by simpa [wf] using hx)
+      have := pushListW_mk h parts racc f hr (by simpa [rwf] using hx)
       simpa [pushW, markAbsW] using this
   | between p, racc, f, hr, hx => by simpa [pushW, markAbsW] using pushOne_mk h racc (between p) f hr hx
   | point p, racc, f, hr, hx => by simpa [pushW, markAbsW] using pushOne_mk h racc (point p) f hr hx
@@ -119,13 +119,13 @@ theorem pushW_mk {low lowAbs} (h : PushMk low lowAbs) :
       simpa [pushW, markAbsW] using pushOne_mk h racc (ordered ls) f hr hx
   | compl l, racc, f, hr, hx => by simpa [pushW, markAbsW] using pushOne_mk h racc (compl l) f hr hx
 theorem pushListW_mk {low lowAbs} (h : PushMk low lowAbs) :
-    ∀ (ps : List Loc) (racc : List Loc) (f : Bool), wfList racc = true → wfList ps = true →
+    ∀ (ps : List Loc) (racc : List Loc) (f : Bool), rwfList racc = true → rwfList ps = true →
       (markAbsListW low lowAbs racc ps f = false →
         marksR (pushListW low racc ps f) = mcomb (marksR racc) (marksList ps)) ∧
-      wfList (pushListW low racc ps f) = true
+      rwfList (pushListW low racc ps f) = true
   | [], racc, f, hr, _ => by simp [pushListW, hr]
   | p :: ps, racc, f, hr, hps => by
-      simp only [wfList_cons, Bool.and_eq_true] at hps
+      simp only [rwfList_cons, Bool.and_eq_true] at hps
       have h1 := pushW_mk h p racc f hr hps.1
       have h2 := pushListW_mk h ps (pushW low racc p f) f h1.2 hps.2
       refine ⟨?_, by simpa [pushListW] using h2.2⟩
@@ -142,12 +142,12 @@ theorem pushD_mk : ∀ d, PushMk (pushD d) (markAbsD d)
               fun racc x f hr hx => (pushW_mk (pushD_mk d) x racc f hr hx).2⟩
 
 /-- **Join keeps the outer markers** of the list it is given, unless a marker-moving rule fires -/
-theorem joinD_marks (d : Nat) (xs : List Loc) (hw : wfList xs = true) (ha : joinMarkAbsD d xs = false) :
+theorem joinD_marks (d : Nat) (xs : List Loc) (hw : rwfList xs = true) (ha : joinMarkAbsD d xs = false) :
     marks (joinD d xs) = marksList xs := by
   have := (fold_mk (pushD_mk d) true xs [] (by simp) hw).1 ha
   simpa [joinD, inner_marks, pushAllD, marksR] using this
 
-theorem join_marks (xs : List Loc) (hw : wfList xs = true) (ha : joinMarkAbs xs = false) :
+theorem join_marks (xs : List Loc) (hw : rwfList xs = true) (ha : joinMarkAbs xs = false) :
     marks (join xs) = marksList xs := joinD_marks _ xs hw ha
 
 mutual
@@ -174,6 +174,41 @@ theorem order_marks (xs : List Loc) : marks (order xs) = marksList xs := by
   | [] => simp
   | [a] => simp
   | _ :: _ :: _ => simp
+
+theorem joinD_rwf (d : Nat) (xs : List Loc) (hw : rwfList xs = true) : rwf (joinD d xs) = true := by
+  have := (fold_mk (pushD_mk d) true xs [] (by simp) hw).2
+  apply inner_rwf
+  rw [rwfList_reverse]
+  exact this
+
+theorem join_rwf (xs : List Loc) (hw : rwfList xs = true) : rwf (join xs) = true := joinD_rwf _ xs hw
+
+mutual
+theorem rwfList_flattenOrd : ∀ (l : Loc), rwf l = true → rwfList (flattenOrd l) = true
+  | ordered ls, h => by simpa [flattenOrd] using rwfList_flattenOrdList ls (by simpa [rwf] using h)
+  | between p, _ => by simp [flattenOrd, rwf]
+  | point p, _ => by simp [flattenOrd, rwf]
+  | ranged s e a b, h => by simpa [flattenOrd] using h
+  | ambiguous s e, h => by simpa [flattenOrd] using h
+  | joined ls, h => by simpa [flattenOrd] using h
+  | compl l, h => by simpa [flattenOrd] using h
+theorem rwfList_flattenOrdList : ∀ (ls : List Loc), rwfList ls = true → rwfList (flattenOrdList ls) = true
+  | [], _ => by simp [flattenOrdList]
+  | l :: ls, h => by
+      simp only [rwfList_cons, Bool.and_eq_true] at h
+      simp [flattenOrdList, rwfList_append, rwfList_flattenOrd l h.1, rwfList_flattenOrdList ls h.2]
+end
+
+theorem order_rwf (xs : List Loc) (h : rwfList xs = true) : rwf (order xs) = true := by
+  unfold order
+  have := rwfList_flattenOrdList xs h
+  revert this
+  generalize flattenOrdList xs = j
+  intro hj
+  match j, hj with
+  | [], _ => simp [rwf]
+  | [a], hj => simpa using hj
+  | a :: b :: r, hj => simpa [rwf] using hj
 
 end Loc
 end Gts
